@@ -16,3 +16,52 @@ Definition s_query (major : bool) (q : query) (d : json) : list node :=
   r_query rx_spec_full rx_spec_sub jeqb major d q.
 Definition rfc_query := s_query false.
 Definition cur_query := s_query true.
+
+(* the same with RFC 9485's reading of '.' (excludes CR): differs from [rfc_query] only on the
+   known class D25 *)
+Definition strict_query (q : query) (d : json) : list node :=
+  r_query rx_strict_full rx_strict_sub jeqb false d q.
+
+(* every regular-expression pattern the evaluation can meet is inside the modelled dialect:
+   literal patterns of match/search, and, when a pattern is taken from the document, every string
+   of the document *)
+Fixpoint doc_strings_ok (j : json) : bool :=
+  match j with
+  | JStr s => rx_supported s && rx_supported (prepare_regex s false) && rx_supported (prepare_regex s true)
+  | JArr l => forallb doc_strings_ok l
+  | JObj m => forallb (fun kv => doc_strings_ok (snd kv)) m
+  | _ => true
+  end.
+Definition pat_ok (s : str) : bool :=
+  rx_supported (prepare_regex s true) && rx_supported (prepare_regex s false).
+Definition rx_arg_ok (d : json) (a : fnarg) : bool :=
+  match a with
+  | ArgLit (LStr s) => pat_ok s
+  | ArgLit _ => true
+  | _ => doc_strings_ok d
+  end.
+Fixpoint rxq_segment (d : json) (s : segment) : bool :=
+  match s with SegDesc s' => rxq_segment d s' | SegSel x => rxq_selector d x | SegSels l => rxq_selectors d l end
+with rxq_selector (d : json) (s : selector) : bool := match s with SelFilter f => rxq_filter d f | _ => true end
+with rxq_selectors (d : json) (l : selectors) : bool := match l with SNil => true | SCons s l' => rxq_selector d s && rxq_selectors d l' end
+with rxq_segments (d : json) (l : segments) : bool := match l with GNil => true | GCons s l' => rxq_segment d s && rxq_segments d l' end
+with rxq_filter (d : json) (f : filter) : bool := match f with FOr l | FAnd l => rxq_filters d l | FAtom a => rxq_atom d a end
+with rxq_filters (d : json) (l : filters) : bool := match l with FNil => true | FCons f l' => rxq_filter d f && rxq_filters d l' end
+with rxq_atom (d : json) (a : atom) : bool :=
+  match a with
+  | AFilter f _ => rxq_filter d f
+  | ATest t _ => rxq_test d t
+  | ACmp _ l r => rxq_comparable d l && rxq_comparable d r
+  end
+with rxq_comparable (d : json) (c : comparable) : bool := match c with CFn f => rxq_tfun d f | _ => true end
+with rxq_test (d : json) (t : test) : bool := match t with TRel l | TAbs l => rxq_segments d l | TFn f => rxq_tfun d f end
+with rxq_tfun (d : json) (f : tfun) : bool :=
+  match f with
+  | FnMatch a b | FnSearch a b => rx_arg_ok d b && rxq_fnarg d a && rxq_fnarg d b
+  | FnLength a | FnCount a | FnValue a => rxq_fnarg d a
+  | FnCustom _ args => rxq_fnargs d args
+  end
+with rxq_fnarg (d : json) (a : fnarg) : bool :=
+  match a with ArgLit _ => true | ArgTest t => rxq_test d t | ArgFilter f => rxq_filter d f end
+with rxq_fnargs (d : json) (l : fnargs) : bool := match l with ANil => true | ACons a l' => rxq_fnarg d a && rxq_fnargs d l' end.
+Definition rx_query_ok (q : query) (d : json) : bool := rxq_segments d q.
